@@ -48,6 +48,34 @@ impl Cfg {
 }
 
 /// How a call reaches the arena.
+/// What `Op::VecBuf` does with a live block that is viewed as the buffer of a full `BumpVec<u8 | u64>`
+/// (`BumpBox::from_raw` -> `FixedBumpVec::from_init` -> `BumpVec::from_parts`).
+#[derive(Clone, Copy, Debug, PartialEq, Eq, Hash)]
+pub enum VecAct {
+    Push,
+    Reserve(u32),
+    ReserveExact(u32),
+    ExtendCopy(u32),
+    /// pop, then `shrink_to_fit`
+    PopShrinkFit,
+    /// pop, then `into_boxed_slice` (the block becomes a `BumpBox<[T]>` of the remaining elements)
+    PopIntoBoxed,
+    /// drop the vector (gives the buffer back)
+    Drop,
+}
+
+/// the vector's buffer after a `VecAct`, in bytes
+#[derive(Clone, Copy, Debug)]
+pub struct VecOut {
+    pub ptr: NonNull<u8>,
+    pub len: usize,
+    pub cap: usize,
+    /// the `try_` twin returned an error
+    pub failed: bool,
+    /// the vector was dropped: no block remains
+    pub gone: bool,
+}
+
 #[derive(Clone, Copy, Debug, PartialEq, Eq, Hash)]
 pub enum Handle {
     /// the value itself (`Bump` inherent / trait impl, or `BumpScope`)
@@ -316,6 +344,8 @@ pub trait DynArena {
     unsafe fn s_deallocate(&self, ptr: NonNull<u8>, layout: Layout);
     /// # Safety: the block was allocated with the layout of `[u64; len]` (elem8) or `[u8; len]`
     unsafe fn s_dealloc_typed(&self, elem8: bool, ptr: NonNull<u8>, len: usize);
+    /// # Safety: the block is live, was allocated with the layout of `[u64; len]` (elem8) or `[u8; len]` and holds initialised bytes
+    unsafe fn s_vec_act(&self, elem8: bool, ptr: NonNull<u8>, len: usize, act: VecAct, try_: bool) -> VecOut;
     fn s_prepare(&self, layout: Layout, rev: bool) -> Result<Range<NonNull<u8>>, AllocError>;
     /// # Safety: contract of `allocate_prepared(_rev)`
     unsafe fn s_commit(&self, layout: Layout, range: Range<NonNull<u8>>, rev: bool) -> NonNull<u8>;
@@ -662,6 +692,15 @@ impl<'r> Via<'r> {
             via_dyn!(self, |a| dealloc_typed_on(a, elem8, ptr, len), ())
         }
     }
+    /// # Safety: see `DynArena::s_vec_act`
+    pub unsafe fn vec_act(&mut self, elem8: bool, ptr: NonNull<u8>, len: usize, act: VecAct, try_: bool) -> VecOut {
+        unsafe {
+            if self.h == Handle::Direct {
+                return self.sh().s_vec_act(elem8, ptr, len, act, try_);
+            }
+            via_dyn_scope!(self, |a| vec_act_on(a, elem8, ptr, len, act, try_), VecOut)
+        }
+    }
     pub fn prepare(&mut self, layout: Layout, rev: bool) -> Result<Range<NonNull<u8>>, AllocError> {
         if self.h == Handle::Direct {
             return self.sh().s_prepare(layout, rev);
@@ -783,6 +822,9 @@ macro_rules! impl_dyn_arena {
         }
         unsafe fn s_dealloc_typed(&self, elem8: bool, ptr: NonNull<u8>, len: usize) {
             unsafe { dealloc_typed_on(self, elem8, ptr, len) }
+        }
+        unsafe fn s_vec_act(&self, elem8: bool, ptr: NonNull<u8>, len: usize, act: VecAct, try_: bool) -> VecOut {
+            unsafe { vec_act_on(self, elem8, ptr, len, act, try_) }
         }
         fn s_prepare(&self, layout: Layout, rev: bool) -> Result<Range<NonNull<u8>>, AllocError> {
             if rev { BumpAllocatorCore::prepare_allocation_rev(self, layout) } else { BumpAllocatorCore::prepare_allocation(self, layout) }
@@ -956,6 +998,79 @@ unsafe fn dealloc_typed_on<B: BumpAllocatorTyped + ?Sized>(a: &B, elem8: bool, p
         } else {
             let b: bump_scope::BumpBox<'_, [u8]> = bump_scope::BumpBox::from_raw(NonNull::slice_from_raw_parts(ptr, len));
             a.dealloc(b);
+        }
+    }
+}
+
+/// the value `VecAct` appends (every byte is `VEC_FILL`)
+pub const VEC_FILL: u8 = 0xE7;
+
+unsafe fn vec_act_t<'a, T: Copy + 'a, A: bump_scope::traits::BumpAllocatorTypedScope<'a>>(a: A, ptr: NonNull<T>, len: usize, act: VecAct, try_: bool, fill: T) -> VecOut {
+    unsafe {
+        let boxed: bump_scope::BumpBox<'a, [T]> = bump_scope::BumpBox::from_raw(NonNull::slice_from_raw_parts(ptr, len));
+        let fixed = bump_scope::FixedBumpVec::from_init(boxed);
+        let mut v: bump_scope::BumpVec<T, A> = bump_scope::BumpVec::from_parts(fixed, a);
+        let es = std::mem::size_of::<T>();
+        let mut failed = false;
+        match act {
+            VecAct::Push => {
+                if try_ {
+                    failed = v.try_push(fill).is_err();
+                } else {
+                    v.push(fill);
+                }
+            }
+            VecAct::Reserve(n) => {
+                if try_ {
+                    failed = v.try_reserve(n as usize).is_err();
+                } else {
+                    v.reserve(n as usize);
+                }
+            }
+            VecAct::ReserveExact(n) => {
+                if try_ {
+                    failed = v.try_reserve_exact(n as usize).is_err();
+                } else {
+                    v.reserve_exact(n as usize);
+                }
+            }
+            VecAct::ExtendCopy(n) => {
+                let src = vec![fill; n as usize];
+                if try_ {
+                    failed = v.try_extend_from_slice_copy(&src).is_err();
+                } else {
+                    v.extend_from_slice_copy(&src);
+                }
+            }
+            VecAct::PopShrinkFit => {
+                v.pop();
+                v.shrink_to_fit();
+            }
+            VecAct::PopIntoBoxed => {
+                v.pop();
+                let b = v.into_boxed_slice();
+                let n = b.len();
+                let p = b.into_raw().cast::<u8>();
+                return VecOut { ptr: p, len: n * es, cap: n * es, failed: false, gone: false };
+            }
+            VecAct::Drop => {
+                drop(v);
+                return VecOut { ptr: ptr.cast(), len: 0, cap: 0, failed: false, gone: true };
+            }
+        }
+        let (fixed, _) = v.into_parts();
+        let out = VecOut { ptr: fixed.as_non_null().cast(), len: fixed.len() * es, cap: fixed.capacity() * es, failed, gone: false };
+        std::mem::forget(fixed);
+        out
+    }
+}
+
+unsafe fn vec_act_on<'a, A: bump_scope::traits::BumpAllocatorTypedScope<'a>>(a: A, elem8: bool, ptr: NonNull<u8>, len: usize, act: VecAct, try_: bool) -> VecOut {
+    unsafe {
+        if elem8 {
+            vec_act_t::<u64, A>(a, ptr.cast(), len, act, try_, u64::from_ne_bytes([VEC_FILL; 8]))
+        } else {
+            vec_act_t::<u8, A>(a, ptr, len, act, try_, VEC_FILL)
         }
     }
 }
